@@ -52,6 +52,8 @@ type phrase struct {
 	lo, hi        int    // for range
 	rlo, rhi, rst string // range with expression operands (non-empty: used instead of lo/hi)
 	filter        string // "" = none (same text both sides)
+	blankVal      bool   // written `key, _ <- c`: the value variable does not exist
+	blankKey      bool   // written `_, val <- c` (key == "")
 }
 
 func (p phrase) intVars() []string {
@@ -61,9 +63,13 @@ func (p phrase) intVars() []string {
 		if p.key != "" {
 			v = append(v, p.key)
 		}
-		v = append(v, p.val)
+		if !p.blankVal {
+			v = append(v, p.val)
+		}
 	case "map":
-		v = append(v, p.val)
+		if !p.blankVal {
+			v = append(v, p.val)
+		}
 	case "strlist":
 		if p.key != "" {
 			v = append(v, p.key)
@@ -75,7 +81,12 @@ func (p phrase) intVars() []string {
 // xHead renders `k, v <- container [if filter]`.
 func (p phrase) xHead(arrow string) string {
 	vars := p.val
-	if p.key != "" {
+	switch {
+	case p.blankVal:
+		vars = p.key + ", _"
+	case p.blankKey:
+		vars = "_, " + p.val
+	case p.key != "":
 		vars = p.key + ", " + p.val
 	}
 	s := vars + " " + arrow + " " + p.cx
@@ -100,12 +111,18 @@ func (p phrase) gOpen() (string, int) {
 		if p.key != "" {
 			k = p.key
 		}
-		s = fmt.Sprintf("for %s, %s := range %s {\n", k, p.val, p.cg)
+		if p.blankVal {
+			s = fmt.Sprintf("for %s := range %s {\n", k, p.cg)
+		} else {
+			s = fmt.Sprintf("for %s, %s := range %s {\n", k, p.val, p.cg)
+		}
 		if p.key != "" {
 			s += "_ = " + p.key + "\n"
 		}
 	}
-	s += "_ = " + p.val + "\n"
+	if !p.blankVal {
+		s += "_ = " + p.val + "\n"
+	}
 	n := 1
 	if p.filter != "" {
 		s += "if " + p.filter + " {\n"
@@ -183,6 +200,15 @@ func (g *G) phrases(outer []string, max int, allowMap bool) []phrase {
 				p.cx = p.rlo + ":" + p.rhi + ":" + p.rst
 			}
 		}
+		// blank forms: `k, _ <- c` (key only) and `_, v <- c`
+		if p.kind != "range" {
+			switch {
+			case p.key != "" && g.Chance(25, "blankval"):
+				p.blankVal = true
+			case p.key == "" && g.Chance(25, "blankkey"):
+				p.blankKey = true
+			}
+		}
 		ps[i] = p
 		visible = append(visible, p.intVars()...)
 		if g.Chance(55, "filter") {
@@ -197,7 +223,7 @@ func (g *G) phrases(outer []string, max int, allowMap bool) []phrase {
 // side has an unused variable (XGo does not diagnose those; Go does).
 func useAll(ps []phrase) {
 	for i := range ps { // string loop variables: mention them in their own phrase's filter
-		if ps[i].kind == "strlist" || (ps[i].kind == "map" && ps[i].key != "") {
+		if (ps[i].kind == "strlist" && !ps[i].blankVal) || (ps[i].kind == "map" && ps[i].key != "") {
 			name := ps[i].val
 			if ps[i].kind == "map" {
 				name = ps[i].key
@@ -271,6 +297,12 @@ func phraseKey(ps []phrase) string {
 		k := ""
 		if p.key != "" {
 			k = "+key"
+		}
+		if p.blankVal {
+			k += "+blankval"
+		}
+		if p.blankKey {
+			k += "+blankkey"
 		}
 		parts = append(parts, p.kind+k+f)
 	}
@@ -412,7 +444,9 @@ func (g *G) forIn() Item {
 	elt := g.IntExpr(vars, 2)
 	isMap := p.kind == "map"
 	var body string
-	if p.kind == "strlist" {
+	if p.kind == "strlist" && p.blankVal {
+		body = "acc += " + elt + "\nout = append(out, fmt.Sprint(" + p.key + "))"
+	} else if p.kind == "strlist" {
 		body = "acc += " + elt + " + len(" + p.val + ")\nout = append(out, " + p.val + ")"
 	} else if isMap {
 		body = "acc += " + elt
@@ -422,7 +456,9 @@ func (g *G) forIn() Item {
 	} else {
 		body = "acc += " + elt + "\nout = append(out, fmt.Sprint(" + strings.Join(vars, ", \":\", ") + "))"
 	}
-	body = "_ = " + p.val + "\n" + body
+	if !p.blankVal {
+		body = "_ = " + p.val + "\n" + body
+	}
 	if p.key != "" {
 		body = "_ = " + p.key + "\n" + body
 	}
@@ -450,7 +486,7 @@ func (g *G) listCompr() Item {
 		}
 	case 1:
 		for _, p := range ps {
-			if p.kind == "strlist" {
+			if p.kind == "strlist" && !p.blankVal {
 				elt, etype = p.val+" + \"!\"", "string"
 			}
 		}
@@ -480,7 +516,7 @@ func (g *G) mapCompr() Item {
 	k, v := g.IntExpr(vars, 1), g.IntExpr(vars, 2)
 	ktype := "int"
 	for _, p := range ps {
-		if p.kind == "strlist" && g.Chance(60, "strkey") {
+		if p.kind == "strlist" && !p.blankVal && g.Chance(60, "strkey") {
 			k, ktype = p.val, "string"
 		}
 		if p.kind == "map" && p.key != "" {
